@@ -107,38 +107,28 @@ Fixpoint set_bits_from (len j : N) (ws : list N) : list N :=
   end.
 Definition set_bits (bs : bitset) : list N := set_bits_from (fst bs) 0 (snd bs).
 
-(* distinct block numbers of a result, ascending *)
-Fixpoint insert_key (x : N) (l : list N) : list N :=
-  match l with
-  | [] => [x]
-  | y :: r => if x <? y then x :: l else if x =? y then l else y :: insert_key x r
-  end.
-Definition keys_of (l : list (N * bitset)) : list N := fold_left (fun m x => insert_key (fst x) m) l [].
+(* distinct block numbers of a result *)
+Definition keys_of (l : list (N * bitset)) : list N := nodup N.eq_dec (map fst l).
 
-(* Searcher.getBlocks, per block b of a segment with nblocks blocks (block summaries) that carries the pqid: the blocks
-   the file reports (and the segment has) come from the stored bits; the remaining blocks are raw-searched UNLESS the
-   number of blocks taken from the file equals the NumBlocks field of the segment's meta ("all blocks in the segment
-   are covered by the PQMR, so we can skip the raw search") - then they are not searched at all.
-   recorded = NumBlocks as read from the segment's .sfm (or segmeta.json line). *)
+(* Searcher.getBlocks, per block b of a segment with nblocks blocks (one block summary per block) that carries the
+   pqid: the blocks the file reports (and the segment has) come from the stored bits; the remaining blocks are
+   raw-searched UNLESS the number of blocks taken from the file equals [total] ("all blocks in the segment are covered
+   by the PQMR, so we can skip the raw search") - then they are not searched at all.
+   The code: total = len(blockSummaries) = nblocks.  Before the fix total was SegMeta.NumBlocks, which in a running
+   .sfm (segment adopted after a crash, never rotated) is the INDEX of the last flushed block. *)
 Definition covered (l : list (N * bitset)) (nblocks : N) : N :=
   N.of_nat (length (filter (fun b => b <? nblocks) (keys_of l))).
-Definition seg_answer (r : option (list (N * bitset))) (recorded nblocks : N) (truth : N -> list N) (b : N) : list N :=
+Definition seg_answer_by (total : N) (r : option (list (N * bitset))) (nblocks : N) (truth : N -> list N) (b : N) : list N :=
   match r with
   | None => truth b
   | Some l => match lookup_last b l with
               | Some bs => set_bits bs
-              | None => if covered l nblocks =? recorded then [] else truth b
+              | None => if covered l nblocks =? total then [] else truth b
               end
   end.
-(* the exact condition under which the block is answered correctly *)
-Definition answer_guard (r : option (list (N * bitset))) (recorded nblocks b : N) : bool :=
-  match r with
-  | None => true
-  | Some l => match lookup_last b l with
-              | Some _ => true
-              | None => negb (covered l nblocks =? recorded)
-              end
-  end.
+Definition seg_answer (r : option (list (N * bitset))) (nblocks : N) := seg_answer_by nblocks r nblocks.
+(* the rule before the fix: recorded = NumBlocks of the segment meta *)
+Definition seg_answer_numblocks (recorded : N) (r : option (list (N * bitset))) (nblocks : N) := seg_answer_by recorded r nblocks.
 
 (* ---------- what the writer produces ---------- *)
 Definition wf_bitset (bs : bitset) : bool :=
@@ -206,18 +196,17 @@ Fixpoint bad_writers (cs : list (list bytes * bytes)) (i : nat) : list nat :=
   end.
 Definition check_writers cs := bad_writers cs O.
 
-(* one crash state of a segment that start-up adopted: the bytes of its pqmr file, NumBlocks in its .sfm, the number of
-   its searchable blocks, per block the records that match the query (from the events sent) and the records the real
-   persistent query returned after the restart *)
-Definition answer_case := (bytes * (N * (list (list N) * list (list N))))%type.
-Fixpoint answers_from (r : option (list (N * bitset))) (recorded nblocks : N) (b : N) (truth : list (list N)) : list (list N) :=
+(* one crash state of a segment that start-up adopted: the bytes of its pqmr file, per searchable block the records
+   that match the query (from the events sent) and the records the real persistent query returned after the restart *)
+Definition answer_case := (bytes * (list (list N) * list (list N)))%type.
+Fixpoint answers_from (r : option (list (N * bitset))) (nblocks : N) (b : N) (truth : list (list N)) : list (list N) :=
   match truth with
   | [] => []
-  | t :: rest => seg_answer r recorded nblocks (fun _ => t) b :: answers_from r recorded nblocks (b + 1) rest
+  | t :: rest => seg_answer r nblocks (fun _ => t) b :: answers_from r nblocks (b + 1) rest
   end.
 Definition check_answer_case (c : answer_case) : bool :=
-  let '(file, (recorded, (truth, got))) := c in
-  list_eqb (list_eqb N.eqb) (answers_from (read_pqmr file) recorded (N.of_nat (length truth)) 0 truth) got.
+  let '(file, (truth, got)) := c in
+  list_eqb (list_eqb N.eqb) (answers_from (read_pqmr file) (N.of_nat (length truth)) 0 truth) got.
 Fixpoint bad_answer_cases (cs : list answer_case) (i : nat) : list nat :=
   match cs with
   | [] => []
